@@ -80,7 +80,7 @@ Definition C17_prephased_untouched_full_statement (rl : rule) : Prop :=
       v_pskey r = true -> c = mkCall [Some x0; Some x1] true (Some b) -> x0 <> x1 ->
       nth_error (v_calls r') s = Some c.
 
-(* The code as it is (rule Cur) refutes it: record 5 below is phased 1|0:3 in the input, no tagged
+(* The code before the repair (rule Cur; /repo before commit f97203d) refutes it: record 5 below is phased 1|0:3 in the input, no tagged
    read covers it, and it comes out as 0/1:3 (unphased by the shared writer). *)
 Theorem C17_prephased_untouched_refuted :
   exists pr ref inp readss out i r r' s c,
@@ -105,7 +105,7 @@ Theorem C17_prephased_flipped_refuted :
 Proof. exact prephased_flipped_refuted. Qed.
 Print Assumptions C17_prephased_flipped_refuted.
 
-(* The repaired rule (Fixed) satisfies the clause for every input: a call that VcfReader recognises as
+(* The repaired rule (Fixed; the code now in /repo) satisfies the clause for every input: a call that VcfReader recognises as
    phased (heterozygous, diploid, fully called, with a phase set id) comes out exactly as it went in. *)
 Theorem C17_prephased_untouched_fixed :
   forall pr ref inp readss out,
@@ -119,6 +119,28 @@ Theorem C17_prephased_untouched_fixed :
       nth_error (v_calls r') s = Some c.
 Proof. exact prephased_untouched_fixed. Qed.
 Print Assumptions C17_prephased_untouched_fixed.
+
+(* The clause as the property text has it — *every* call written with `|` in the input comes out
+   unchanged — is still refuted by the repaired rule (the code now in /repo): the shared writer's
+   _remove_existing_phasing unphases what VcfReader does not regard as phased (homozygous 1|1:5 -> 1/1:5;
+   0|0:5 on a record without ALT -> 0/0:5), and a heterozygous 0|1 without a PS key is put back with PS = 0. *)
+Definition C17_prephased_any_untouched_full_statement (rl : rule) : Prop :=
+  forall pr ref mav recs nalts readss out,
+    haplotagphase_file rl pr ref mav recs nalts readss = Ok out ->
+    forall i r r' s c,
+      nth_error recs i = Some r -> nth_error out i = Some r' ->
+      nth_error (v_calls r) s = Some c -> c_phased c = true ->
+      nth_error (v_calls r') s = Some c.
+Theorem C17_prephased_unrecognised_refuted :
+  (exists out, haplotagphase Fixed default_params [0;1;2;3] [mkRec 2 true true [mkCall [Some 1; Some 1] true (Some 5)]] [[]]
+               = Ok out /\ out = [mkRec 2 true true [mkCall [Some 1; Some 1] false (Some 5)]]) /\
+  (exists out, haplotagphase Fixed default_params [0;1;2;3] [mkRec 2 true false [mkCall [Some 0; Some 1] true None]] [[]]
+               = Ok out /\ out = [mkRec 2 true true [mkCall [Some 0; Some 1] true (Some 0)]]) /\
+  (exists out, haplotagphase_file Fixed default_params [0;1;2;3] true
+                 [mkRec 2 true true [mkCall [Some 0; Some 0] true (Some 5)]] [0] [[]]
+               = Ok out /\ out = [mkRec 2 true true [mkCall [Some 0; Some 0] false (Some 5)]]).
+Proof. exact prephased_unrecognised_refuted. Qed.
+Print Assumptions C17_prephased_unrecognised_refuted.
 
 (* The repaired rule changes nothing when no call of the input is written with `|`: on such inputs
    (the `whatshap unphase` output in particular) both rules give the same result or the same error. *)
